@@ -192,6 +192,17 @@ pub fn oracle(input: &str, st: &mut Stats) -> Verdict {
                     }
                 }
             }
+            // the older lookup, name -> category
+            #[allow(deprecated)]
+            let rev = conf.reverse();
+            vensure!(rev.len() == info.len(), "c11.lookup-wrong", "reverse() has {} entries, ingredients_info() {}; input {input:?}", rev.len(), info.len());
+            for c in &conf.categories {
+                for i in &c.ingredients {
+                    for n in &i.names {
+                        vensure!(rev.get(n).copied() == Some(c.name), "c11.lookup-wrong", "reverse() maps {n:?} to {:?}, its category is {:?}; input {input:?}", rev.get(n), c.name);
+                    }
+                }
+            }
             // a second lookup (also on a clone) must give the same answers
             for other in [conf.ingredients_info(), conf.clone().ingredients_info()] {
                 vensure!(other.len() == info.len(), "c11.lookup-not-repeatable", "a repeated ingredients_info() has {} entries, the first had {}; input {input:?}", other.len(), info.len());
